@@ -285,6 +285,32 @@ def full_section_battery(opfmt):
 def gen_range_reads(rng, tier, opfmt, payloads=None, extra_n=None):
     """histories with gaps; bound pairs from the critical values of each history"""
     out = []
+    # interleaved: the same queries are repeated after every append (an answer remembered from
+    # before the append would be stale); bounds sit on and just after the last line
+    for p in (0, 4):
+        h = Hist(p)
+        h.new()
+        for t in (7, 8, 100002, 100003):
+            h.push(t, rng)
+        for _ in range(5):
+            last = h.last()
+            qs = [("U", "U"), (f"I:{last}", f"I:{last + 1}"), ("U", f"I:{last + 1}"), ("U", f"E:{last + 1}"),
+                  ("U", f"E:{last + 2}"), (f"I:{last - 1}", f"I:{last + 2}"), (f"E:{last}", "U"), (f"I:{last + 1}", f"I:{last + 1}")]
+            for rep in range(2):
+                for s_, e_ in qs:
+                    h.op(opfmt.format(s=s_, e=e_))
+            h.push(last + 1, rng)
+            for s_, e_ in qs:
+                h.op(opfmt.format(s=s_, e=e_))
+        # the very same query immediately before and immediately after an append
+        for k in range(8):
+            last = h.last()
+            s_, e_ = [("U", f"I:{last + 1}"), (f"I:{last}", f"I:{last + 1}"), ("U", f"E:{last + 2}"), (f"I:{last + 1}", f"I:{last + 1}"),
+                      ("U", "U"), (f"E:{last - 1}", f"I:{last + 1}"), (f"I:7", f"I:{last + 1}"), (f"I:100002", f"E:{last + 2}")][k]
+            h.op(opfmt.format(s=s_, e=e_))
+            h.push(last + 1, rng)
+            h.op(opfmt.format(s=s_, e=e_))
+        out.append((f"interleaved-p{p}", h.script()))
     # directed: gap, end in gap, excluded start, excluded zero
     h = Hist(0)
     h.new()
@@ -337,6 +363,17 @@ def gen_C14(rng, tier):
 
 def gen_C13(rng, tier):
     out = []
+    # very sparse series (every line opens a section) and LARGE n: thousands of section headers lie
+    # between the first and the n-th line of the range
+    for p, count in ([(8, 3000), (0, 1500)] if tier == "quick" else [(8, 6000), (4, 3000), (0, 3000), (2, 3000)]):
+        h = Hist(p)
+        h.new()
+        h.pushrun(86400, 86400, count, 5)
+        for n in (count // 2 + 51, count - 500, count - 1, count, count + 7):
+            h.op(f"read_first_n n={n} s=U e=U")
+            h.op(f"read_first_n n={n} s=E:{86400 * 3} e=I:{86400 * (count - 2)}")
+        h.op(f"page n={count - 500}")
+        out.append((f"sparse-large-n-p{p}", h.script()))
     for i, n in enumerate([1, 2, 3, 7]):
         out += [(f"first{n}", s) for _, s in gen_range_reads(random.Random(rng.randrange(1 << 30)), "quick", f"read_first_n n={n} s={{s}} e={{e}}")[:(3 if tier == "quick" else 11)]]
     nh = 8 if tier == "quick" else 60
@@ -431,6 +468,10 @@ def gen_C15(rng, tier):
     out = all_bytes_battery(["files", "read_all s=U e=U"])
     # after a torn-tail repair the next appends must again give the canonical bytes
     out += torn_tail_battery(rng)
+    # ... and after an index rebuilt from a data file spanning several read buffers (a section the
+    # rebuild misses makes the next append open a section too many)
+    out += [x for x in gen_C06(random.Random(rng.randrange(1 << 30)), tier) if x[0].startswith("big")]
+    out += chunk_end_battery(tier)
     for h0 in _histories(rng, tier, PAYLOADS_SMALL + [16]):
         h = Hist(h0.p, hdr=h0.hdr)
         h.new()
@@ -906,6 +947,43 @@ def gen_C05(rng, tier):
     return out
 
 
+def chunk_end_battery(tier):
+    """the LAST section header starts on each of the lines around the end of a 16 KiB read buffer of
+    the index rebuild (and of the reader); the index is rebuilt (removed / cut), then lines are
+    appended close to the last section: a section the rebuild misses shows in the index bytes and,
+    after the append, in the data bytes (one section too many)"""
+    out = []
+    for p in ([0, 4, 6] if tier == "quick" else [0, 1, 2, 3, 4, 6, 8]):
+        ls = p + 2
+        cl = -(-16384 // ls)
+        for k in (1, 2):
+            h = Hist(p)
+            h.new()
+            base = k * cl - 1 - lpm(p)
+            h.op("close")
+            h.op("save 0")
+            for d in (-2, -1, 0, 1, 2):
+                for ix in ("rm index", "cut index 4", None):
+                    h.op("restore 0")
+                    h.ts, h.full, h.off, h.sections = [], None, 0, []
+                    h.open()
+                    h.pushrun(1000, 1, base + d, 3)
+                    h.pushrun(h.last() + 100000, 1, 3, 4)
+                    h.op("close")
+                    if ix:
+                        h.op(ix)
+                    h.open()
+                    h.op("files")
+                    h.op("len")
+                    h.pushrun(h.last() + 20, 1, 2, 5)
+                    h.op("read_all s=I:" + str(h.last() - 30) + " e=U")
+                    h.op("close")
+                    h.op("files")
+            if marker_free(p, [1000, 1000 + base + 100002]):
+                out.append((f"chunk-end-p{p}-k{k}", h.script()))
+    return out
+
+
 def window_sweep_battery(tier, ps):
     out = []
     # directed: the backwards window scan for the last full timestamp.  The last section is
@@ -964,6 +1042,7 @@ def gen_C06(rng, tier):
             h.op("files")
         out.append((f"big-p{p}", h.script()))
     out += window_sweep_battery(tier, [8, 4] if tier == "quick" else [8, 4, 5, 16, 0, 2])
+    out += chunk_end_battery(tier)
     for h0 in _histories(rng, tier, PAYLOADS_SMALL + [16]):
         h = Hist(h0.p, hdr=h0.hdr)
         h.new()
@@ -1258,6 +1337,46 @@ def gen_C16(rng, tier):
     return out
 
 
+def text_header_battery(tier):
+    out = []
+    # TEXT headers (what users store: RON/JSON with unit symbols): valid UTF-8 with 2-, 3- and 4-byte
+    # characters straddling every byte position around typical cut-off lengths.  Demanded vs stored
+    # header differ: the answer must be the Mismatch error, whatever the error message does with them.
+    def text_header(total, pos, ch):
+        b = ("a" * pos + ch).encode()
+        return b + b"z" * max(0, total - len(b))
+    cuts = [16, 32, 64, 100, 128, 200, 255, 256, 257, 500, 512, 1000, 1024, 4096]
+    if tier == "quick":
+        cuts = [64, 128, 256, 512, 1024]
+    for ch in ("\u00b0", "\u20ac", "\U0001F600"):
+        h = Hist(4, hdr=b"stored header (ascii)")
+        h.new()
+        h.op("close")
+        for cut in cuts:
+            for pos in range(cut - 4, cut + 1):
+                want = text_header(cut + 40, pos, ch)
+                h.open(hdr=want, p=4)
+                h.op("payload_size")
+                h.op("close")
+        out.append((f"text-mismatch-demanded-{len(ch.encode())}", h.script()))
+        # the other way round: the multi-byte text is what is stored
+        for cut in cuts[:3] if tier == "quick" else cuts:
+            for pos in (cut - 3, cut - 2, cut - 1):
+                st = text_header(cut + 40, pos, ch)
+                h2 = Hist(0, hdr=st)
+                h2.new()
+                h2.op("close")
+                h2.open(hdr=b"something else", p=0)
+                h2.op("close")
+                h2.open(hdr=st + "\u00b0".encode(), p=0)
+                h2.op("close")
+                h2.open(hdr=st, p=0)
+                h2.op("payload_size")
+                h2.op("close")
+                out.append((f"text-mismatch-stored-{cut}-{pos}", h2.script()))
+    return out
+
+
 def gen_C17(rng, tier):
     out = []
     directed = [(p, d) for p in (8, 0, 12345) for d in (-1, 0, 1, 2)]
@@ -1293,6 +1412,7 @@ def gen_C17(rng, tier):
             h.op("close")
             h.op("files")
         out.append(("contract", h.script()))
+    out += text_header_battery(tier)
     # stale sidecar files make a create fail: nothing new may be left behind
     for stale in ["index", "part"]:
         h = Hist(4, caches=[2] if stale.startswith("c") else [])
@@ -1329,6 +1449,42 @@ def gen_C18(rng, tier):
                 h.op("read_all s=U e=U")
                 h.op("close")
             out.append((f"long-damaged-p{p}-{nbuf}", h.script()))
+    # directed: inside the section that is skipped, data lines whose 16-bit delta looks like part of a
+    # marker (low or high byte FF), each in turn as the LAST line before the next intact section
+    for p in ([1, 4, 5] if tier == "quick" else [0, 1, 2, 3, 4, 5, 8]):
+        for last_delta in (255, 511, 0xFF00, 0xFEFF, 0x00FF + 256 * 7, 254, 0xFFFE):
+            h = Hist(p)
+            h.new()
+            for t in (1000, 1001, 1002):
+                h.push(t, rng)
+            b0 = 200000
+            for dlt in (0, 100, 255, 256, last_delta):
+                if b0 + dlt > h.last():
+                    h.push(b0 + dlt, rng)
+            c0 = h.last() + 200000
+            for t in (c0, c0 + 1, c0 + 2):
+                h.push(t, rng)
+            d0 = h.last() + 200000
+            for t in (d0, d0 + 1):
+                h.push(t, rng)
+            if not marker_free(p, h.ts):
+                continue
+            H = header_len(p, 0)
+            h.op("close")
+            h.op("save 0")
+            for where in ("marker2", "delta"):
+                for cb in ["T", "F", "none"]:
+                    h.op("restore 0")
+                    if where == "marker2":
+                        h.op(f"damage data {H + h.sections[1][1] + h.ls} 0000")
+                    else:
+                        # the delta of the first data line of section B becomes FF FF
+                        h.op(f"damage data {H + h.sections[1][1] + h.ms} ffff")
+                    h.open(cb=cb)
+                    h.op("read_all s=U e=U")
+                    h.op("read_first_n n=4 s=U e=U")
+                    h.op("close")
+            out.append((f"skip-delta-{last_delta}-p{p}", h.script()))
     for i in range(14 if tier == "quick" else 120):
         p = PAYLOADS_SMALL[i % len(PAYLOADS_SMALL)]
         h = Hist(p)
@@ -1354,6 +1510,7 @@ def gen_C18(rng, tier):
 
 def gen_C19(rng, tier):
     out = spread_battery(["len", "read_n n=2 s=U e=U", "read_all s=U e=U"])
+    out += text_header_battery(tier)      # builder options: demanded vs stored text headers
     # bucket sizes at the far end of usize
     for caches in ([U64], [1 << 63], [3, U64], [(1 << 32) + 1]):
         h = Hist(4, caches=caches)
